@@ -37,7 +37,26 @@ type Conn struct {
 	segSizes  []int   // when set, writes are cut into these sizes (cyclic)
 	segIdx    int
 	closeOnce sync.Once
+
+	limitOut  int64 // >=0 when set: after this many bytes written the conn closes or stalls
+	limitMode string
+	limited   bool
+	stallCh   chan struct{}
 }
+
+// LimitOut makes the connection stop after n written bytes: mode "close" closes it (client abort),
+// mode "stall" blocks the writer forever (silent stall) until the conn is closed.
+func (c *Conn) LimitOut(n int64, mode string) {
+	c.mu.Lock()
+	c.limitOut, c.limitMode, c.limited = n, mode, true
+	c.stallCh = make(chan struct{})
+	c.mu.Unlock()
+}
+
+// Stalled reports whether a stall limit has been reached.
+func (c *Conn) LimitReached() bool { return c.limited && c.BytesOut.Load() >= c.limitOut }
+
+var ErrAborted = errors.New("memnet: client aborted here")
 
 func (c *Conn) op(kind string) error {
 	if c.hooks == nil || c.hooks.OnOp == nil {
@@ -71,7 +90,40 @@ func (c *Conn) Write(b []byte) (int, error) {
 		*c.teeWrite = append(*c.teeWrite, b...)
 	}
 	seg := c.segSizes
+	limited, lim, mode, stall := c.limited, c.limitOut, c.limitMode, c.stallCh
 	c.mu.Unlock()
+	if limited {
+		room := lim - c.BytesOut.Load()
+		n := 0
+		if room > 0 {
+			k := int64(len(b))
+			if k > room {
+				k = room
+			}
+			m, err := c.Conn.Write(b[:k])
+			n = m
+			c.BytesOut.Add(int64(m))
+			if err != nil {
+				return n, err
+			}
+		}
+		if c.BytesOut.Load() < lim {
+			return n, nil
+		}
+		// the limit is reached: abort right here, or go silent
+		if mode == "close" {
+			c.Conn.Close()
+			if n == len(b) {
+				return n, nil
+			}
+			return n, ErrAborted
+		}
+		if n == len(b) {
+			return n, nil
+		}
+		<-stall
+		return n, ErrAborted
+	}
 	if len(seg) == 0 {
 		n, err := c.Conn.Write(b)
 		c.BytesOut.Add(int64(n))
@@ -102,6 +154,11 @@ func (c *Conn) Write(b []byte) (int, error) {
 
 func (c *Conn) Close() error {
 	c.Closes.Add(1)
+	c.mu.Lock()
+	if c.stallCh != nil {
+		c.closeOnce.Do(func() { close(c.stallCh) })
+	}
+	c.mu.Unlock()
 	if err := c.op("Close"); err != nil {
 		c.Conn.Close()
 		return err
